@@ -231,7 +231,7 @@ func inputDetail(b []byte) map[string]any {
 }
 
 func checkC09(c *core.Ctx) {
-	c.Rule("(1) byte fuzz: valid chord texts, instance documents and dictionaries mutated (truncation, bit flips, insert/delete/duplicate/splice, invalid UTF-8, NUL, CRLF, BOM, YAML anchors/aliases/merge keys/tags, huge numbers, nesting) and over-long inputs up to 64 KiB, fed to every reading command through stdin, `-` and FILE; (2) flag fuzz: every flag of every command with boundary and nonsense values; (3) the catalogue of musically meaningless inputs through every channel that can carry them (text metadata -> text conv -> write, YAML field -> write, flag); " +
+	c.Rule("(1) byte fuzz: valid chord texts, instance documents and dictionaries mutated (truncation, bit flips, insert/delete/duplicate/splice, invalid UTF-8, NUL, CRLF, BOM, YAML anchors/aliases/merge keys/tags, huge numbers, nesting) and over-long inputs up to 64 KiB, fed to every reading command through stdin, `-` and FILE; (2) flag fuzz: every flag of every command with boundary and nonsense values, and every data-producing command with an output target that refuses every byte (-o /dev/full); (3) the catalogue of musically meaningless inputs through every channel that can carry them (text metadata -> text conv -> write, YAML field -> write, flag); " +
 		"judged: no signal/panic/fatal error, CPU time below the limit, failure <=> non-zero exit with a diagnostic on stderr and nothing on stdout, catalogue items never end in a file that decodes as SMF; a tenth of the fuzz runs use the race-detector build; " +
 		"non-trivial = distinct (command, input class, outcome) with an input that is not a seed; distinct by (target, mutation, outcome, input hash)")
 	c.Assume("CPU-time limit 10 s per child for inputs <= 64 KiB (race build: 60 s)", "smfdec decides whether bytes are a MIDI file", "both success and refusal are acceptable for arbitrary bytes; only the form of the outcome is judged")
@@ -428,6 +428,36 @@ func checkC09(c *core.Ctx) {
 
 	// ---------------- (2) flag fuzz
 	flagFuzz(c)
+
+	// an output target that accepts the open but no byte (-o /dev/full): a command that has something to
+	// print cannot have succeeded
+	fullCmds := []struct {
+		args  []string
+		stdin string
+	}{
+		{[]string{"write"}, "doc"}, {[]string{"write", "--track", "3"}, "doc"}, {[]string{"write", "event"}, "doc"}, {[]string{"write", "parse"}, "doc"}, {[]string{"write", "conv", "-c", "cmt"}, "doc"},
+		{[]string{"text", "parse"}, "text"}, {[]string{"text", "conv", "syllable"}, "text"}, {[]string{"text", "conv", "degree"}, "dtext"},
+		{[]string{"info", "attr", "list"}, ""}, {[]string{"info", "attr", "describe", "-t", "Major3"}, ""}, {[]string{"info", "chord", "list"}, ""}, {[]string{"info", "chord", "describe", "-t", "Cm7"}, ""},
+		{[]string{"info", "key", "list"}, ""}, {[]string{"info", "key", "describe", "--key", "D"}, ""}, {[]string{"info", "key", "conv", "--key", "D", "-c", "pd"}, ""}, {[]string{"gen", "attr"}, ""}, {[]string{"gen", "attr", "-d", "3"}, ""},
+	}
+	c.Stream("devfull", len(fullCmds)*2, func(i int, r *rand.Rand) {
+		fc := fullCmds[i%len(fullCmds)]
+		flag := []string{"-o", "/dev/full"}
+		if i >= len(fullCmds) {
+			flag = []string{"--output=/dev/full"}
+		}
+		stdin := map[string][]byte{"doc": []byte("- chord: {degree: \"1\", name: \"m7\"}\n  values: [\"1\"]\n- values: [2]\n"), "text": []byte("C[1] Am7/G[2] R[1]"), "dtext": []byte("1[1] 6m7/5[2] R[1]"), "": {}}[fc.stdin]
+		res := c.Crd.Run(runner.Opt{Stdin: stdin}, append(append([]string{}, fc.args...), flag...)...)
+		name := strings.Join(fc.args[:min(3, len(fc.args))], " ") + " -o /dev/full"
+		if !judgeOutcome(c, "devfull", i, name, res, map[string]any{"argv": runner.ShellQuote(res.Argv)}) {
+			return
+		}
+		if res.Exit == 0 {
+			c.Violate("devfull", i, "silent-write-failure:"+strings.Join(fc.args[:min(3, len(fc.args))], " "), fmt.Sprintf("`crd %s` reports success although its output could not be written (the target refuses every byte)", strings.Join(res.Argv, " ")), map[string]any{"run": obs(res)})
+			return
+		}
+		c.Nontrivial("devfull|" + name + fmt.Sprint(i >= len(fullCmds)))
+	})
 
 	// ---------------- (3) nonsense catalogue
 	nonsenseCatalogue(c)
